@@ -116,7 +116,10 @@ def run_case(case):
                         shared_nonkey = {x for x in ent["cols"] & other["cols"] if x in "xyz"}
                         if shared_nonkey:
                             continue
-                        prog = ["join", ent["prog"], other["prog"], None, {"bt": rng.random() < 0.7, "tr": rng.random() < 0.5}]
+                        if rng.random() < 0.35 and ent["eng"] == other["eng"]:
+                            prog = ["join", ent["prog"], other["prog"], None, {"maxc": list("abcdefg"), "partial": rng.random() < 0.5}]
+                        else:
+                            prog = ["join", ent["prog"], other["prog"], None, {"bt": rng.random() < 0.7, "tr": rng.random() < 0.5}]
                     what = model.show(prog)
                     rel = b.build(prog)
                     add(prog, rel, {t.qualified_name for t in rel.columns}, str(rel.engine))
